@@ -27,6 +27,9 @@ def conc(v):
         return b.decode("ascii") if v.get("str") else b
     if isinstance(v, list):
         return [conc(x) for x in v]
+    if isinstance(v, dict) and "entropy" in v and isinstance(v.get("calls"), dict):
+        from .repo import PyExpr
+        return PyExpr("spec.ModelEntropy({%s})" % ", ".join("%d: bytes.fromhex(%r)" % (int(k), h) for k, h in sorted(v["calls"].items(), key=lambda kv: int(kv[0]))))
     raise ValueError("not a plain value")
 
 
@@ -61,7 +64,7 @@ def try_direct(qual, o, repo):
     func = "importlib.import_module(%r).%s" % ("spake2." + parts[0], ".".join(parts[1:]))
     r = oracle().req(op="replay", func=func, args={k: Oracle.enc(v) for k, v in args.items()}, clause=cl,
                      requires=[p.expr for p in c.pre])
-    return dict(kind="direct", request=dict(func=qual, args={k: (v.hex() if isinstance(v, bytes) else v) for k, v in args.items()}),
+    return dict(kind="direct", request=dict(func=qual, args={k: (v.hex() if isinstance(v, bytes) else getattr(v, "src", v)) for k, v in args.items()}),
                 answer=r, confirmed=bool(r.get("ok") and r.get("clause_holds") is False and r.get("precondition_holds", True)))
 
 
@@ -72,14 +75,14 @@ def try_search(qual, o, repo, seed=0):
     if c is None or cl is None:
         return None
     types = {k: v for k, v in c.param_types.items()}
-    if not types or any(not (t in ("int", "nat", "byte", "bool", "bytes") or t.startswith("bytes:")) for t in types.values()):
+    if not types or any(not (t in ("int", "nat", "byte", "bool", "bytes", "entropy") or t.startswith("bytes:")) for t in types.values()):
         return None
     parts = qual.split(".")
     func = "importlib.import_module(%r).%s" % ("spake2." + parts[0], ".".join(parts[1:]))
     r = oracle().req(op="search", func=func, types=types, clause=cl, requires=[p.expr for p in c.pre], seed=seed, budget=4000)
     out = dict(kind="bounded-search", tried=r.get("tried"), confirmed=bool(r.get("found")))
     if r.get("found"):
-        out["failing_input"] = {k: (Oracle.dec(v).hex() if isinstance(Oracle.dec(v), bytes) else Oracle.dec(v)) for k, v in r["args"].items()}
+        out["failing_input"] = {k: (v["py"] if isinstance(v, dict) and "py" in v else (Oracle.dec(v).hex() if isinstance(Oracle.dec(v), bytes) else Oracle.dec(v))) for k, v in r["args"].items()}
         out["answer"] = r["answer"]
     return out
 
